@@ -181,7 +181,7 @@ def run(chk):
                 "cycle 1 loads version 5 (resp. 100) in one process; cycle 2 (version 6) runs in a fresh process under strace "
                 "with SIGKILL injected at the k-th write/rename system call for every k (the crash state is read "
                 "off the trace: how many datastore calls completed) and with ENOSPC injected into every datastore "
-                "write/rename; then replayed older repositories and the version-6 repository are loaded in fresh "
+                "write/rename and EIO into every unlink; then replayed older repositories and the version-6 repository are loaded in fresh "
                 "processes on copies of the datastore; non-trivial = every injected run that interrupted the "
                 "cycle; distinct by (scenario, crash state or failed call, fault)")
     chk.assumptions = ["process death and failed writes only (page cache survives): no power loss, no fsync reasoning",
@@ -236,15 +236,16 @@ def one_scenario(chk, base, rotate):
         if n:
             for k in range(1, 2 * n + 6):
                 points.append((name, k, "kill"))
-                if name in ("write", "rename", "renameat", "renameat2"):
-                    points.append((name, k, "error"))
+                # a failing call: ENOSPC for writes and renames, EIO for the removal of a stored file
+                points.append((name, k, "error"))
 
     def inject_one(pt):
         name, k, how = pt
         ds = os.path.join(base, "%s-%s%d%s" % (tag, name, k, how))
         shutil.copytree(ds1, ds)
         tr = ds + ".trace"
-        spec = "%s:%s:when=%d" % (name, "signal=SIGKILL" if how == "kill" else "error=ENOSPC", k)
+        spec = "%s:%s:when=%d" % (name, "signal=SIGKILL" if how == "kill" else
+                                  ("error=EIO" if name.startswith("unlink") else "error=ENOSPC"), k)
         res2, rc2 = run_proc(case("new", ds), trace=tr, inject=spec)
         tcalls, _ = parse_trace(tr, ds)
         text = open(tr, errors="replace").read()
